@@ -224,4 +224,16 @@ impl TelemetryUpdate {
             packets_dropped_serializer: self.packets_dropped_serializer,
         }
     }
+
+    /// Verification hook: the send counters the payload loop of `Forwarder::run` accumulates, as plain numbers.
+    pub fn verif_send_counts(&self) -> crate::verif::SendCounts {
+        crate::verif::SendCounts {
+            packets_sent: self.packets_sent,
+            packets_dropped: self.packets_dropped,
+            packets_dropped_writer: self.packets_dropped_writer,
+            bytes_sent: self.bytes_sent,
+            bytes_dropped: self.bytes_dropped,
+            bytes_dropped_writer: self.bytes_dropped_writer,
+        }
+    }
 }
